@@ -2,7 +2,7 @@
     Model: FV.Sched.  Only statements here; proofs in FVP.Sched_proofs. *)
 From Coq Require Import List ZArith Bool.
 From FV Require Import Base Sched.
-From FVP Require Import Adapters_proofs Sched_proofs Confluence_proofs Termination_proofs.
+From FVP Require Import Adapters_proofs Sched_proofs Confluence_proofs Termination_proofs Order_proofs.
 Import ListNotations.
 Open Scope Z_scope.
 
@@ -76,6 +76,14 @@ Theorem C03_terminates :
     exists F, forall fuel o st acc, (F <= fuel)%nat -> run fuel cs endt = (o, st, acc) -> o <> OFuel.
 Proof. exact run_terminates. Qed.
 
+(** The same for EVERY order in which equally advanced components are considered (all that the listing order
+    decides), with the explicit fuel bound [enough_fuel] = 1 + the sum over the components of the distance from
+    their start to the bound on all times. *)
+Theorem C03_terminates_every_order :
+  forall cs rank endt prio, term_ok cs rank -> (forall c, (c < length cs)%nat -> In c prio) ->
+    forall fuel o st acc, (enough_fuel cs endt <= fuel)%nat -> run_prio prio fuel cs endt = (o, st, acc) -> o <> OFuel.
+Proof. exact run_prio_terminates. Qed.
+
 (** Hence such a run ends normally — with every component at or beyond the end time — or with a
     circular-coupling error. *)
 Theorem C03_terminates_normally_or_circular :
@@ -128,4 +136,5 @@ Print Assumptions C03_first_update_not_late.
 Print Assumptions C03_outcome.
 Print Assumptions C03_lifecycle.
 Print Assumptions C03_terminates.
+Print Assumptions C03_terminates_every_order.
 Print Assumptions C03_terminates_normally_or_circular.
